@@ -342,8 +342,11 @@ def check_apply(case):
 @st.composite
 def sync_cases(draw):
     flavour = draw(st.sampled_from(["def", "async", "partial", "obj", "obj-awaitable", "def-mixed", "class",
-                                    "class-async-call", "method", "async-method", "lambda-coro", "attribute", "wrapped-facade"]))
-    if flavour in ("def", "class", "class-async-call", "method", "attribute", "wrapped-facade"):
+                                    "class-async-call", "method", "async-method", "lambda-coro", "attribute", "wrapped-facade",
+                                    "asyncgen-fn", "asyncgen-partial"]))
+    if flavour in ("asyncgen-fn", "asyncgen-partial"):
+        kinds = st.just("plain")
+    elif flavour in ("def", "class", "class-async-call", "method", "attribute", "wrapped-facade"):
         kinds = st.sampled_from(["plain", "raise"])
     elif flavour == "def-mixed":
         kinds = st.sampled_from(["plain", "coroutine", "object", "raise", "suspending", "futurelike",
@@ -442,7 +445,14 @@ def check_sync(case):
         function, the callable itself is an ordinary function returning a plain value"""
         return plain_def(arg)
 
-    target = {"attribute": None, "wrapped-facade": facade, "class": Made, "class-async-call": MadeAsyncCall, "method": holder.method,
+    async def agen_fn(arg):
+        # an async generator FUNCTION is a plain function as far as calling it goes: the call returns at once, with
+        # an (async generator) object that is not awaitable - the plain result
+        k, kind = next(calls)
+        yield k
+
+    target = {"attribute": None, "wrapped-facade": facade, "asyncgen-fn": agen_fn,
+              "asyncgen-partial": functools.partial(agen_fn), "class": Made, "class-async-call": MadeAsyncCall, "method": holder.method,
               "async-method": holder.amethod, "lambda-coro": lambda arg: coro_fn(arg),
               "def": plain_def, "def-mixed": plain_def, "async": coro_fn,
               "partial": functools.partial(coro_fn2, "x"), "obj": Obj(), "obj-awaitable": ObjAw()}[flavour]
@@ -468,6 +478,11 @@ def check_sync(case):
         if not inspect.isawaitable(awaitable):
             raise Violation("C19/sync/wrapper-did-not-return-an-awaitable", f"{case} call {k}: {awaitable!r}")
         outcome = run(ctx, _await(awaitable))
+        if flavour in ("asyncgen-fn", "asyncgen-partial"):
+            if outcome[0] != "return" or not inspect.isasyncgen(outcome[1]):
+                raise Violation("C19/sync/result-differs", f"{case} call {k}: {outcome!r} (expected the async generator object)")
+            run(ctx, outcome[1].aclose())
+            continue
         if kind in ("raise", "coroutine-raises"):
             if outcome[0] != "raise" or outcome[1] is not errors.get(k):
                 raise Violation("C19/sync/exception-differs", f"{case} call {k}: {outcome!r}")
